@@ -520,7 +520,8 @@ func main() {
 	defer o.Close()
 	r.Assume = []string{
 		"the Tx object handed to VerifyTxScript is well formed: Idx < len(TxIn), SegWit is nil or has one entry per input, Spent_outputs holds every spent output (as chain.commitTxs / txpool prepare it)",
-		"HookVerifyTxScript is nil",
+		"HookVerifyTxScript is nil; btc.EC_Verify / btc.Schnorr_Verify / btc.Check_PayToContract are nil (pure-Go cryptography; client/speedups would replace all three answers)",
+		"the taproot / tapscript rules of the reference (BIP341/342) have no external vector in this tree (script_tests / tx_valid / tx_invalid carry none, lib/test/bip341_script_tests.json is empty): for them the run shows code = model = reference, the reference itself is validated by reading only",
 		"cryptography (signature hashes, ECDSA / Schnorr verification, tweak check) is whatever the real btc functions answer (properties C02, C03); SHA-256 / RIPEMD-160 / SHA-1 are the Lean implementations, cross-checked here",
 		"reference semantics = Bitcoin Core interpreter.cpp as written down in lean/GocoinV/Spec/Script.lean (spec decisions listed there)",
 	}
